@@ -116,6 +116,11 @@ def DW.step (st : DW) (bens : List (List Rat)) (margin : Rat) (rebalancing : Boo
       let r := DW.postDims { st with m := { m1 with conts := conts } } (List.range st.dim)
       some { st := r.1, refined := ps, cmps := cmps, raiseDone := r.2 }
 
+/-- the effect of `evaluate_operation()` on the refinement structures: it ends with
+`self.refinement.clear_new_objects()` (repository commit 48b37d3), i.e. `startNewObjects = len(objects)` in every
+container; nothing else of the modelled state changes -/
+def DW.evaluate (st : DW) : DW := { st with m := st.m.clearNew }
+
 /-- the inputs of one `refine()` call: the benefit table, the margin, the rebalancing switch and the outcomes of
 the rebalancing comparisons -/
 structure StepIn where
